@@ -299,8 +299,10 @@ class Connection(object):
             return self._local_objects[value]
         if label == consts.LABEL_REMOTE_REF:
             id_pack = (str(value[0]), value[1], value[2])  # so value is a id_pack
-            if id_pack in self._proxy_cache:
-                proxy = self._proxy_cache[id_pack]
+            # one look-up: another thread may drop the last handle on the cached proxy at any moment, and a test
+            # followed by a second look-up would then fail on the vanished entry
+            proxy = self._proxy_cache.get(id_pack)
+            if proxy is not None:
                 proxy.____refcount__ += 1  # if cached then remote incremented refcount, so sync refcount
             else:
                 proxy = self._netref_factory(id_pack)
